@@ -24,6 +24,11 @@ NEEDS = {
  "C19": ("merge(): load errors of the second and later inputs silently dropped (flat_map over Result)", "ska merge a.skf DAMAGED.skf -o m: exits 0 and writes m.skf without the damaged file's samples"),
  "C20": ("fit_histogram truncation: < MIN_FREQ became <= MIN_FREQ", "a read pair whose last multiplicity shared by >= 50 split k-mers is shared by exactly 50"),
 }
+HISTORY = {
+ "C10": "missed by the first version of the C10 check (quick tier: no history reached two successive deletes on a table without low counts); the generator was strengthened (30% of histories start from twin samples so that every k-mer is in >= 2 samples; single-sample deletes favoured) and now reports it",
+ "C11": "missed by the first version of the C11 check (sample counts stopped at 45, merge recursion depth <= 2); sample counts {69,70,72,149,150,161} with forced thread counts >= 8/16 were added and now report it",
+ "C17": "missed by the first version of the C17 check (ska lo was always run with the default -m or 0.4); the -m values 0, 0.05, 0.4, 1 were added to the isolated-SNP stages and now report it",
+}
 res = {}
 p = '/verif/notes/mutants-results.jsonl'
 if os.path.exists(p):
@@ -43,6 +48,7 @@ for pid, (what, needs) in NEEDS.items():
       "confirmed_by_me": "tools/confirm_seed.sh in a fresh scratch worktree of /repo HEAD: demo exits 0 on the clean tree; with patch.diff applied the crate compiles, the repository suite passes (52 passed, 0 failed) and the demo exits 1",
       "checks_run_against_it": {k: {"exit": v["exit"], "verdict": "VIOLATION reported" if v["exit"] == 1 else ("held (missed)" if v["exit"] == 0 else "inconclusive"), "wall_s": v["wall"], "message": v["msg"][:240]} for k, v in checks.items()},
       "caught_by": [k for k, v in checks.items() if v["exit"] == 1],
+      "check_history": HISTORY.get(pid, "caught by the check as first built"),
       "how_run": "tools/mutants.py --patch seeded/%s/patch.diff (scratch worktree + private copy of the harness, quick tier, VERIF_SEED=1); final confirmation for selected ones by git -C /repo apply / ./run.sh / git checkout" % pid,
     }
     json.dump(meta, open(d + '/meta.json', 'w'), indent=1)
